@@ -65,7 +65,7 @@ def parseFromString (s : String) : List NSeq :=
   ((s.splitOn "_").filter (· ≠ "")).map fun g =>
     standardize (g.toList.map fun c => c.toNat - '0'.toNat)
 
-def step (st : St) (op : String) : St × String :=
+partial def step (st : St) (op : String) : St × String :=
   let s := st.proc
   match op.splitOn ":" with
   | ["N", name, basis] =>
@@ -101,6 +101,7 @@ def step (st : St) (op : String) : St × String :=
     match s.enumeration name (parseNat n + 1) 0 with
     | .ok (s', cs) => ({ st with proc := s' }, showSeq cs)
     | .error e => (st, e.show)
+  | ["F", name, k, _tag] => step st s!"F:{name}:{k}"
   | ["F", name, k] =>
     match s.obj? name with
     | none => (st, Err.keyError.show)
